@@ -129,11 +129,32 @@ def check_pair_utils(case, rec):
         want2 = [sum(1 for r in ref if d(q, r) == 1) for q in queries]
         if [int(v) for v in nums2] != want2:
             raise Violation("calculate_neighbor_numbers-reference", f"queries={queries} reference={sorted(ref)}: {list(nums2)} != {want2}")
-        for q in queries:
+        for q in list(queries) + list(seqs[:2]):      # also strings that are themselves members of the reference
             g = call("isdist1", D.isdist1, q, ref, nb)
             w = any(d(q, r) == 1 for r in ref)
             if bool(g) != w:
                 raise Violation("isdist1", f"isdist1({q!r}, {sorted(ref)}) = {g!r}, expected {w}")
+
+
+def check_many_partners(case, rec):
+    """A reference holding (almost) the whole one-edit ball of a sequence: several hundred distance-1 partners."""
+    x = case["x"]
+    ball = sorted(universe_dist1(x, G.AA))
+    ref = set(ball[:: case.get("stride", 1)]) | {x}
+    others = [ball[0], ball[-1], x[:-1] + "W" + "W"]
+    want = [sum(1 for r in ref if O.lev(s, r) == 1) for s in [x] + others]
+    rec.note(case, want[0] >= 256, [f"partners={want[0]}"])
+    got = call("calculate_neighbor_numbers", D.calculate_neighbor_numbers, [x] + others, ref, D.levenshtein_neighbors)
+    if [int(v) for v in got] != want:
+        raise Violation("calculate_neighbor_numbers-many", f"x={x!r}, reference = {len(ref)} strings: {list(got)} != {want}")
+    if not call("isdist1", D.isdist1, x, ref):
+        raise Violation("isdist1", f"isdist1({x!r}, reference containing x and its one-edit ball) is False")
+
+
+def enum_many_partners(tier):
+    for x in ("CASSLGQ", "CASSLGQAYEQYF", "AAAAAAAA"):
+        for stride in (1, 2):
+            yield {"x": x, "stride": stride}
 
 
 def check_nndist(case, rec):
@@ -260,6 +281,7 @@ SUBS = [
     Sub("lev_exhaustive", check_lev_neighbors, enum=enum_lev),
     Sub("ham_exhaustive", check_ham_neighbors, enum=enum_ham),
     Sub("next_exhaustive", check_next_nearest, enum=enum_next),
+    Sub("many_partners", check_many_partners, enum=enum_many_partners),
     Sub("nndist_exhaustive", check_nndist, enum=enum_nndist),
     Sub("nndist_short", check_nndist, enum=enum_nndist_short),
     Sub("lev_random", check_lev_neighbors, strategy=lambda t: lev_random(t), budget=(1500, 15000)),
